@@ -30,6 +30,7 @@ CONSTANTS
   SwResetExitFieldV,     \* struct.validate clears Exit before each field
   SwResetExitElemP,      \* slices.process clears Exit before each element
   SwResetExitElemV,      \* slices.validate clears Exit before each element
+  SwPtrFreshCtx,         \* the schema behind a pointer runs on a fresh context, not on the pointer's
   SwValStructArgPtr,     \* struct.validate hands tests/transforms the destination pointer
   SwNestedSourceTag,     \* nested structs resolve keys with the source tag of their front end
   SwEmptyRecordSourceTag,\* so does a struct whose record is absent or empty (nil, {}, missing)
@@ -241,7 +242,7 @@ PtrStart ==
   /\ LET f == Top  n == f.node
          absent == IF Mode = "parse" THEN ParseAbsent(f.in) ELSE dest[f.dp] = 0
          d1 == IF dest[f.dp] = 0 THEN (f.dp :> 1) @@ ZeroDest(Elem(n), Append(f.dp, "*")) @@ dest ELSE dest
-         child == Frame(Elem(n), f.in, f.ip, Append(f.dp, "*"), Len(ctxs) + 1, f.fe)
+         child == Frame(Elem(n), f.in, f.ip, Append(f.dp, "*"), IF SwPtrFreshCtx THEN Len(ctxs) + 1 ELSE f.ctx, f.fe)
      IN Commit(
           IF absent THEN
                IF n.req THEN WithTop(AddIssue(Cur, f.ctx, Iss(f.ip, "not_nil", DType(n))), [f EXCEPT !.pc = "done"])
